@@ -10,6 +10,7 @@
 //	fetch <u> <w>      u fetches w's current advertisement and runs ribUpdate
 //	                                                         => <dump of u> | skip
 //	dead <u> <w>       u's dead-neighbor check removes w     => <dump of u> | skip
+//	sweep <u> <w1,w2,..> ONE dead-neighbor check of u finds all of them dead => <dump of u> | skip
 //	check              dump of every router                  => r0 <dump> ; r1 <dump> ; ...
 package c18
 
@@ -19,6 +20,8 @@ import (
 	"strings"
 	"testing"
 	"testing/synctest"
+
+	enc "github.com/named-data/ndnd/std/encoding"
 
 	"verif/harness/c18/dvsim"
 	"verif/harness/common"
@@ -224,11 +227,44 @@ func (h *hgen) lose(es []edge) {
 		h.g.Stat("unlink")
 		deads = append(deads, edge{e.a, e.b}, edge{e.b, e.a})
 	}
-	p := shuffled(h.r, len(deads))
+	// several neighbours of one router may expire within the same dead interval: ONE sweep finds them all
+	byU := map[int][]int{}
+	var single []edge
+	for _, d := range deads {
+		byU[d.a] = append(byU[d.a], d.b)
+	}
+	type sweep struct {
+		u  int
+		ws []int
+	}
+	var sweeps []sweep
+	for u := 0; u < h.t.n; u++ {
+		ws := byU[u]
+		if len(ws) >= 2 && h.r.Chance(2, 3) {
+			k := h.r.Range(2, len(ws))
+			sweeps = append(sweeps, sweep{u, ws[:k]})
+			ws = ws[k:]
+		}
+		for _, w := range ws {
+			single = append(single, edge{u, w})
+		}
+	}
+	total := len(single) + len(sweeps)
+	p := shuffled(h.r, total)
 	for _, i := range p {
 		h.randomFetches(h.r.Intn(4))
-		h.g.Op("dead %d %d", deads[i].a, deads[i].b)
-		h.g.Stat("dead")
+		if i < len(single) {
+			h.g.Op("dead %d %d", single[i].a, single[i].b)
+			h.g.Stat("dead")
+		} else {
+			sw := sweeps[i-len(single)]
+			parts := make([]string, len(sw.ws))
+			for j, w := range sw.ws {
+				parts[j] = fmt.Sprint(w)
+			}
+			h.g.Op("sweep %d %s", sw.u, strings.Join(parts, ","))
+			h.g.Stat("sweep-multi")
+		}
 	}
 }
 
@@ -402,6 +438,26 @@ func exec(op string) string {
 			return "skip"
 		}
 		return sim.DumpRib(a[0])
+	case "sweep":
+		if sim == nil || len(f) != 3 {
+			return "skip"
+		}
+		u := common.Atoi(f[1])
+		if u < 0 || u >= len(sim.Nodes) {
+			return "skip"
+		}
+		var names []enc.Name
+		for _, ws := range strings.Split(f[2], ",") {
+			w := common.Atoi(ws)
+			if w < 0 || w >= len(sim.Nodes) || w == u {
+				return "skip"
+			}
+			names = append(names, sim.Nodes[w].Name)
+		}
+		if sim.DeadMany(u, names) == 0 {
+			return "skip"
+		}
+		return sim.DumpRib(u)
 	case "check":
 		if sim == nil {
 			return "skip"
